@@ -174,6 +174,22 @@ Proof.
 Qed.
 Print Assumptions C03_failed_resume_decided.
 
+(* the source as it is now (/repo d2af489): a failed resume attempt leaves the world exactly as it was.  Closed through
+   [eq_ind] on the generated constant: with the shipped form (RFTrapOnBuilddir) this proof does not type-check, and the lane
+   damaged-resume finds the build directory removed *)
+Theorem C03_failed_resume_is_harmless_now :
+  Gen_Orch.resume_failure_form <> ShapeDefs.RFTrapOnBuilddir /\
+  forall w b d, ResumeDamaged.failed_resume Gen_Orch.resume_failure_form w b d = w.
+Proof.
+  exact (match C03_failed_resume_decided with
+         | or_intror H => H
+         | or_introl (conj H _) =>
+             match (eq_ind Gen_Orch.resume_failure_form
+                      (fun x => match x with ShapeDefs.RFTrapOnBuilddir => False | _ => True end) I _ H) with end
+         end).
+Qed.
+Print Assumptions C03_failed_resume_is_harmless_now.
+
 (* that the repaired forms are repairs: in every form but the shipped one a failed resume attempt changes nothing *)
 Theorem C03_failed_resume_repaired_forms : forall rf w b d,
   rf <> ShapeDefs.RFTrapOnBuilddir -> ResumeDamaged.failed_resume rf w b d = w.
